@@ -233,6 +233,38 @@ def pProgramAux : Nat → List Char → Option (List Stmt)
 
 def parseProgram (cs : List Char) : Option (List Stmt) := pProgramAux (cs.length + 1) cs
 
+/-! ### files: assignments of special variables followed by statements -/
+inductive Top where
+  | assign (name : List Char) (v : Val)
+  | stmt (s : Stmt)
+
+/-- `ident = value ;` or a statement -/
+def pTop (cs : List Char) : Option (Top × List Char) :=
+  match pIdent cs with
+  | none => none
+  | some (w, r) =>
+    match skipWs r with
+    | '=' :: r1 =>
+      match pValue (r1.length + 1) r1 with
+      | none => none
+      | some (v, r2) =>
+        match skipWs r2 with
+        | ';' :: r3 => some (.assign w v, r3)
+        | _ => none
+    | _ => (pStmt (cs.length + 1) cs).map fun (s, r') => (.stmt s, r')
+
+def pFileAux : Nat → List Char → Option (List Top)
+  | 0, _ => none
+  | fuel + 1, cs =>
+    match skipWs cs with
+    | [] => some []
+    | _ =>
+      match pTop cs with
+      | none => none
+      | some (t, r) => (pFileAux fuel r).map (t :: ·)
+
+def parseFile (cs : List Char) : Option (List Top) := pFileAux (cs.length + 1) cs
+
 /-- balanced braces, never negative (outside string literals the emitter writes no braces) -/
 def braceDepthOK (cs : List Char) : Bool :=
   let rec go (cs : List Char) (depth : Nat) (inStr : Bool) (esc : Bool) : Bool :=
